@@ -981,6 +981,47 @@ SYM_CORPUS = [
 ]
 
 
+def _load_sym_generated():
+    """the generated part of the size-parameter corpus: written once by tools/gen_sym_corpus.py and COMMITTED
+    (pv/sym_generated.json) -- fixed corpus entries, not regenerated at check time"""
+    import json
+    import os
+    path = os.path.join(os.path.dirname(os.path.abspath(__file__)), "sym_generated.json")
+    if not os.path.exists(path):
+        return []
+
+    def tup(x):
+        return tuple(tup(y) for y in x) if isinstance(x, (list, tuple)) else x
+
+    def static(d):
+        return d[1] == 0 and d[2] == 0
+    out = []
+    for rec in json.load(open(path)):
+        steps = [(k, tuple(o), tup(p)) for k, o, p in rec["steps"]]
+        nins, nouts = len(rec["inputs"]), rec["nouts"]
+        inputs = [(nm, (lambda n, m, dims=tup(dims): tuple(d[0] if static(d) else d[0] + d[1] * n + d[2] * m for d in dims)), F64)
+                  for nm, dims in rec["inputs"]]
+
+        def fn(L, S, steps=steps, nins=nins, nouts=nouts, **ins):
+            pool = [ins[k] for k in sorted(ins)]
+            for kind, opnds, prm in steps:
+                pool.append(_apply_step(L, kind, [pool[k] for k in opnds], prm))
+            return {f"o{k}": v for k, v in enumerate(pool[nins:][-nouts:])}
+        out.append(SymProg(rec["name"], ("n", "m"), inputs, fn, min_size=rec.get("min_size", 0)))
+    return out
+
+
+SYM_GENERATED = _load_sym_generated()
+
+
+def sym_corpus(tier="quick"):
+    """hand-written size-parameter programs + the committed generated ones (cheap: all of them in both tiers)"""
+    return SYM_CORPUS + SYM_GENERATED
+
+
+ALL_SYM = SYM_CORPUS + SYM_GENERATED
+
+
 def build_sym_pytato(prog: SymProg):
     import pytato as pt
     L = PtLib()
